@@ -116,7 +116,7 @@ func init() {
 			os.MkdirAll(filepath.Join(dir, "sibling"), 0755)
 			wd := filepath.Join(dir, "in")
 			os.WriteFile(filepath.Join(wd, "d.frundis"), []byte(unrunes(parts[1])), 0644)
-			for _, n := range []string{"i.png", "img.png", "a%2Fb", "..%2F..%2Fz"} {
+			for _, n := range []string{"i.png", "img.png", "a%2Fb", "..%2F..%2Fz", "..%2F..%2F..%2Fup3", "%2E%2E%2Fq"} {
 				os.WriteFile(filepath.Join(wd, n), []byte("x"), 0644)
 			}
 			before := tree(dir)
